@@ -21,7 +21,7 @@ from ..tree import pp, walk, short_fn, strip_casts
 LEVEL = 'other'
 UNITS = ['src/monitoring/OnlineAverage.cpp', 'src/monitoring/OnlineVariance.cpp', 'verif:inst_concurrency.cpp']
 ENGINES = 'E-STATE + E-ALG + E-INT over romea-facts'
-TECHNIQUE = 'kind and width of the running totals and of reduction accumulators, reductions over the window read as the running total, shortcut paths of update() must still slide the window, interval evaluation of the variance numerator with the ranges of the quantifier, stored availability flag after update and reset on every fill level, sweep of every function read (and its in-repo callees) for frozen function-local statics, single precision inside double computations, lossy copy constructors, presence- or argument-keyed member caches, reference members bound to constructor arguments, loop accumulators that are members, members derived in the constructor and not refreshed by setters, results returned by reference to a member buffer, members filled from an argument under a condition that ignores it, hidden non-virtual base members, self-bound reference members, reductions that accumulate in float; symbolic reading of update/reset bodies into exact formulas (sympy), def-use state-completeness, paired-update and interval/width lints on the typed AST'
+TECHNIQUE = 'ring append placed on (items held, capacity) witnesses: push while filling, overwrite when full, kind and width of the running totals and of reduction accumulators, reductions over the window read as the running total, shortcut paths of update() must still slide the window, interval evaluation of the variance numerator with the ranges of the quantifier, stored availability flag after update and reset on every fill level, sweep of every function read (and its in-repo callees) for frozen function-local statics, single precision inside double computations, lossy copy constructors, presence- or argument-keyed member caches, reference members bound to constructor arguments, loop accumulators that are members, members derived in the constructor and not refreshed by setters, results returned by reference to a member buffer, members filled from an argument under a condition that ignores it, hidden non-virtual base members, self-bound reference members, reductions that accumulate in float; symbolic reading of update/reset bodies into exact formulas (sympy), def-use state-completeness, paired-update and interval/width lints on the typed AST'
 EXPLANATION = ('The bodies of update/append/reset/clear/operator[] are read into exact symbolic final-state expressions per path '
                '(no execution, loops never unrolled); rules S1 state completeness vs constructor, S2 paired total/container update, '
                'S3 average/variance formulas as polynomial identities, S4 integer widths by interval evaluation under the quantifier ranges, '
